@@ -46,11 +46,21 @@ def str_method(x, st, recv, name, pos, kw, node, chain):
         r = f(s)
         st.pc.append(z3.Implies(z3.Length(s) == 0, z3.Length(r) == 0))
         st.pc.append(z3.Implies(z3.Length(s) > 0, z3.Length(r) > 0))
+        # case mapping never creates or removes ASCII punctuation (only cased letters change)
+        st.pc.append(z3.Contains(r, z3.StringVal(":")) == z3.Contains(s, z3.StringVal(":")))
         return [(st, vstr(r))]
     if name in ("startswith", "endswith"):
         op = z3.PrefixOf if name == "startswith" else z3.SuffixOf
         if len(pos) > 1:
             return [(st, vbool(z3.Bool(fresh_name(name))))]
+        if a0.k == "symtuple":
+            # s.startswith(T) for a symbolic tuple T whose elements all end with T.suffix:
+            # True => some element p of T is a prefix of s (Skolem witness p)
+            b = z3.Bool(fresh_name("startswith_any"))
+            p = z3.String(fresh_name("pfx"))
+            suf = z3.StringVal(a0.t["suffix"])
+            st.pc.append(z3.Implies(b, z3.And(op(p, s), z3.SuffixOf(suf, p), z3.Length(p) >= z3.Length(suf))))
+            return [(st, vbool(b))]
         if a0.k == "tuple":
             ts = [x.as_str(e) for e in a0.t]
             if all(t is not None for t in ts):
